@@ -274,16 +274,12 @@ impl Store {
                 let tx = self.db.begin_write()?;
                 TransactionAndTables::new(tx)?
             }
-            CurrentTransaction::Write(w) => {
-                if w.since.elapsed() > MAX_COMMIT_DELAY {
-                    tracing::debug!("committing transaction because it's too old");
-                    w.commit()?;
-                    let tx = self.db.begin_write()?;
-                    TransactionAndTables::new(tx)?
-                } else {
-                    w
-                }
-            }
+            // Never commit here: a logical operation may consist of several `modify` calls (an
+            // insert prunes the entries it supersedes, then writes the new entry), and a commit
+            // between them could make the first half durable without the second. Transactions
+            // that got too old are committed by `tables()`, which every such operation passes
+            // before its first write.
+            CurrentTransaction::Write(w) => w,
             CurrentTransaction::Read(_) => {
                 let tx = self.db.begin_write()?;
                 TransactionAndTables::new(tx)?
